@@ -359,7 +359,7 @@ class Wrapf(util.WrapperMixin):
                         if function.cpp_if:
                             f_type_decl.append("#" + function.cpp_if)
                         f_type_decl.append(
-                            "generic :: {} => {}".format(
+                            "generic :: {} =>\t {}".format(
                                 key, function.fmtdict.F_name_function
                             )
                         )
